@@ -100,6 +100,7 @@ class Ether:
         self.links = links
         self.log = []      # (sender, frame) in transmission order
         self.max_frames = 10000
+        self.down = set()   # stations temporarily out of range (neither hear nor are heard)
 
     def attach(self, name, stn):
         ll = EtherLL(self, name)
@@ -109,6 +110,8 @@ class Ether:
         return ll
 
     def hears(self, a, b):
+        if a in self.down or b in self.down:
+            return False
         return a != b and (self.links is None or frozenset((a, b)) in self.links)
 
     def pump(self):
